@@ -130,6 +130,10 @@ func (dem *DepthExecutorManager) merge(resp *DepthExecutorResponse) error {
 				v2, ok2 := dem.result[key].(map[string]interface{})
 				if ok1 && ok2 {
 					dem.result[key] = mergeMaps(v2, v1)
+				} else if _, isPresent := dem.result[key]; isPresent && value == nil {
+					// several services can answer the same node query, null from the ones which don't
+					// know the object must not erase the answer of the others, whatever order they come in
+					continue
 				} else {
 					dem.result[key] = value
 				}
